@@ -11,7 +11,8 @@ where
     }
     fn read(&self, offset: Offset, buf: &mut [u8]) -> std::io::Result<usize> {
         let o = offset.force_into_usize();
-        let mut slice = &self.as_ref()[o..];
+        // Reading after the end is a read of 0 bytes.
+        let mut slice = self.as_ref().get(o..).unwrap_or(&[]);
         Read::read(&mut slice, buf)
     }
 
@@ -30,15 +31,23 @@ where
     }
 
     fn get_slice(&self, region: ARegion, block_check: BlockCheck) -> Result<Cow<[u8]>> {
-        debug_assert!(region.end().force_into_usize() <= self.as_ref().len());
+        let begin = region.begin().force_into_usize();
+        let end = region.end().force_into_usize();
+        // The region may come from a corrupted (or truncated) file.
+        let full_slice = self
+            .as_ref()
+            .get(begin..end + block_check.size())
+            .ok_or_else(|| -> Error {
+                format_error!(&format!(
+                    "Out of slice. {} ({begin}) > {}",
+                    end + block_check.size(),
+                    self.as_ref().len()
+                ))
+            })?;
         if let BlockCheck::Crc32 = block_check {
-            let full_slice = &self.as_ref()[region.begin().force_into_usize()
-                ..region.end().force_into_usize() + BlockCheck::Crc32.size()];
             assert_slice_crc(full_slice)?;
         }
-        let slice =
-            &self.as_ref()[region.begin().force_into_usize()..region.end().force_into_usize()];
-        Ok(Cow::Borrowed(slice))
+        Ok(Cow::Borrowed(&full_slice[..end - begin]))
     }
 
     fn cut(
